@@ -32,11 +32,27 @@ def refkey(args, kwargs):
 
 
 class LogMap(MutableMapping):
+    """Caller-supplied cache that can also expire an entry on its own after a number of reads
+    (what a TTL cache does between two accesses of the library)."""
+
     def __init__(self):
         self.d, self.log = {}, []
+        self.armed = None        # [key, reads_left]
+        self.fired = False
+
+    def arm(self, key, reads):
+        self.armed = [key, reads]
 
     def __getitem__(self, k):
-        return self.d[k]
+        try:
+            return self.d[k]
+        finally:
+            if self.armed is not None:
+                self.armed[1] -= 1
+                if self.armed[1] <= 0:
+                    self.d.pop(self.armed[0], None)
+                    self.armed = None
+                    self.fired = True
 
     def __setitem__(self, k, v):
         self.log.append(('set', k))
@@ -125,8 +141,10 @@ def sweep(aiu, sigs, mode, cache_kind, st, label):
 SIG3 = [((1,), ()), ((1.0,), (('p', 0),)), ((('p', 0),), ()), ((), (('p', 0),))]
 
 
-def evict_programs(n):
+def evict_programs(n, expire=False):
     ops = [('call', i) for i in range(len(SIG3))] + [('evict', i) for i in range(len(SIG3))] + [('clear',)]
+    if expire:
+        ops += [('expire', i, k) for i in range(2) for k in (1, 2, 3)]
     for ln in range(1, n + 1):
         yield from itertools.product(ops, repeat=ln)
 
@@ -150,10 +168,16 @@ def run_evict(aiu, prog, cache_kind, st):
     f = aiu.threadsafe_async_cache(cache=cache)(raw)
     bad = []
 
+    def hkeys():          # harness reads must not count as reads of the expiring mapping
+        return list(cache.d.keys()) if isinstance(cache, LogMap) else list(cache.keys())
+
+    def hitems():
+        return list(cache.d.items()) if isinstance(cache, LogMap) else list(cache.items())
+
     implkey = {}     # reference key -> the key object the implementation stored (learned, format-agnostic)
 
     def present(k):
-        return k in implkey and any(kk == implkey[k] and type(kk) is type(implkey[k]) for kk in list(cache.keys()))
+        return k in implkey and any(kk == implkey[k] and type(kk) is type(implkey[k]) for kk in hkeys())
 
     async def main():
         for op in prog:
@@ -161,10 +185,30 @@ def run_evict(aiu, prog, cache_kind, st):
                 a, kw = SIG3[op[1]]
                 k = refkey(a, dict(kw))
                 was = present(k)
-                stored = next((v for kk, v in list(cache.items()) if was and kk == implkey[k]), None)
-                keys0 = list(cache.keys())
+                stored = next((v for kk, v in hitems() if was and kk == implkey[k]), None)
+                keys0 = hkeys()
                 n0 = len(invoked)
-                r = await f(*a, **dict(kw))
+                if isinstance(cache, LogMap):
+                    cache.fired = False
+                try:
+                    r = await f(*a, **dict(kw))
+                except BaseException as e:   # noqa
+                    bad.append(('call_raised', f'{op}: call {a!r} {dict(kw)!r} raised {type(e).__name__}: {e} '
+                                               f'(program {prog})'))
+                    continue
+                if isinstance(cache, LogMap) and cache.fired:
+                    # the entry expired while this very call was looking at the mapping: old value or
+                    # exactly one recomputation, both fine - but always this key's value
+                    if refkey(r.args, r.kwargs) != k:
+                        bad.append(('foreign_result', f'{op}: call {a!r} {dict(kw)!r} got {r!r}'))
+                    if len(invoked) - n0 > 1 or (len(invoked) == n0 and r is not stored):
+                        bad.append(('eviction_during_call_mishandled',
+                                    f'{op}: {len(invoked) - n0} invocations, got {r!r}, stored was {stored!r}'))
+                    if len(invoked) == n0 + 1:
+                        fresh = [kk for kk in hkeys() if not any(kk is k0 for k0 in keys0)]
+                        if fresh:
+                            implkey[k] = fresh[-1]
+                    continue
                 if refkey(r.args, r.kwargs) != k:
                     bad.append(('foreign_result', f'{op}: call {a!r} {dict(kw)!r} got {r!r}'))
                 if was and (len(invoked) != n0 or r is not stored):
@@ -175,7 +219,7 @@ def run_evict(aiu, prog, cache_kind, st):
                                 f'{op}: no entry for these arguments in the caller mapping but '
                                 f'{len(invoked) - n0} invocations; got {r!r}'))
                 if len(invoked) == n0 + 1:
-                    new = [kk for kk in cache.keys() if not any(kk is k0 or kk == k0 for k0 in keys0)]
+                    new = [kk for kk in hkeys() if not any(kk is k0 or kk == k0 for k0 in keys0)]
                     if len(new) == 1:
                         implkey[k] = new[0]
                     elif not new:
@@ -185,6 +229,11 @@ def run_evict(aiu, prog, cache_kind, st):
                 k = refkey(a, dict(kw))
                 if present(k):
                     del cache[implkey[k]]
+            elif op[0] == 'expire':
+                a, kw = SIG3[op[1]]
+                k = refkey(a, dict(kw))
+                if present(k) and isinstance(cache, LogMap):
+                    cache.arm(implkey[k], op[2])
             else:
                 cache.clear()
         return True
@@ -213,7 +262,7 @@ def run_case(item):
         st.sample({'mode': mode, 'cache': cache_kind, 'signatures': len(sigs), 'first': repr(sigs[:3])})
     else:
         _, n, cache_kind, part, parts = item
-        progs = [p for i, p in enumerate(evict_programs(n)) if i % parts == part]
+        progs = [p for i, p in enumerate(evict_programs(n, expire=(cache_kind == 'logmap'))) if i % parts == part]
         for p in progs:
             if cache_kind.startswith('lru') and any(op[0] != 'call' for op in p):
                 continue
@@ -234,7 +283,7 @@ def main(tier):
             plan.append(('sweep', maxpos, maxkw, mode, cache_kind, 0, 1))
     n = 4 if tier == 'quick' else 5
     for cache_kind in ('logmap', 'dict'):
-        plan += [('evict', n, cache_kind, p, 8) for p in range(8)]
+        plan += [('evict', n, cache_kind, p, 16) for p in range(16)]
     for k in (1, 2, 3):
         plan += [('evict', n + 1, f'lru{k}', p, 4) for p in range(4)]
     for st in common.pmap(run_case, plan):
